@@ -81,3 +81,50 @@ def cond_mean(w, par, x, R):
     if par["M"] is None:
         return x[None]
     return xp.einsum("rij,nj->rni", par["M"], x) + par["b"][:, None]
+
+
+# ------------------------------------------------------------------ Isserlis / Wick (axiom G2), combinatorial
+def _matchings(items):
+    if not items:
+        yield []
+        return
+    a = items[0]
+    for k in range(1, len(items)):
+        b = items[k]
+        rest = items[1:k] + items[k + 1:]
+        for m in _matchings(rest):
+            yield [(a, b)] + m
+
+
+def wick(w, mu, Sigma, forms, letters, out, D):
+    """E[ prod_t (A_t x + a_t)[letters[t]] ] for x ~ N(mu, Sigma), summed over letters not in `out`.
+    forms: list of (A, a) with A [R?, K, D] (3-D) or None (identity), a [R?, K] or None (zero).
+    mu [R, D], Sigma [R, D, D].  Returns [R, *out].  Generated from subsets x perfect matchings (Isserlis),
+    NOT from the implementation's algebraic shortcut."""
+    xp = w.xp
+    n = len(forms)
+    eye = xp.eye(w.size(D))[None]
+    A3 = [eye if A is None else A for (A, a) in forms]
+    means = []
+    for (A, a), A_ in zip(forms, A3):
+        m = xp.einsum("rkd,rd->rk", A_, mu)
+        if a is not None:
+            m = m + a
+        means.append(m)
+    total = None
+    idx = list(range(n))
+    import itertools
+    for size in range(0, n + 1, 2):
+        for S_ in itertools.combinations(idx, size):
+            rest = [t for t in idx if t not in S_]
+            for match in _matchings(list(S_)):
+                ops, subs = [], []
+                for t in rest:
+                    ops.append(means[t])
+                    subs.append("r" + letters[t])
+                for (s, t) in match:
+                    ops.append(xp.einsum("rkd,rde,rle->rkl", A3[s], Sigma, A3[t]))
+                    subs.append("r" + letters[s] + letters[t])
+                term = xp.einsum(",".join(subs) + "->r" + out, *ops)
+                total = term if total is None else total + term
+    return total
